@@ -289,53 +289,64 @@ Proof.
 Qed.
 
 (* ---- the delivery statement ------------------------------------------------------------------------- *)
-(* A broadcast signal sent by connection c, in any reachable state, without a Fault: the list of
-   connections that get a copy has no repetition and contains exactly the connections that hold a rule
-   which matches according to the specification. *)
-Theorem broadcast_delivery limit mk ns c m l :
+Lemma fan_out_filter caps nfds l : fan_out caps nfds l = filter (fd_ok caps nfds) l.
+Proof. induction l as [|d l IH]; simpl; [reflexivity|]. destruct (fd_ok caps nfds d); now rewrite IH. Qed.
+
+Lemma fd_ok_iff caps nfds c : fd_ok caps nfds c = true <-> nfds = 0 \/ In c caps.
+Proof. unfold fd_ok. rewrite orb_true_iff, N.eqb_eq, existsb_eqb_In. tauto. Qed.
+
+(* A broadcast signal sent by connection c, in any reachable state: the list of connections that get a
+   copy has no repetition and contains exactly the connections that hold a rule which matches according
+   to the specification AND can take the message (it carries no unix fds, or they negotiated fd passing).
+   In particular a recipient that is skipped has no influence on any other. *)
+Theorem broadcast_delivery limit mk ns caps c m nfds l :
   reachable limit mk ->
   m_dest m = None -> m_type m = DBUS_MESSAGE_TYPE_SIGNAL ->
-  dispatch ns mk c m = Some (RDelivered l) ->
+  dispatch ns mk caps c m nfds = Some (RDelivered l) ->
   NoDup l /\
-  forall x, In x l <-> exists r, In r mk /\ r_owner r = x /\ spec_matches ns (abs_rule r) (Some c) None m = true.
+  forall x, In x l <-> (nfds = 0 \/ In x caps) /\
+                       exists r, In r mk /\ r_owner r = x /\ spec_matches ns (abs_rule r) (Some c) None m = true.
 Proof.
   intros Hr Hd Ht H. unfold dispatch in H. rewrite Hd, Ht in H. rewrite N.eqb_refl in H.
   destruct (get_recipients ns mk (Some c) None m) as [l0|] eqn:Eg; [|discriminate].
-  inversion H; subst l0; clear H.
+  inversion H; subst l; clear H. rewrite fan_out_filter.
   destruct (reachable_inv _ _ Hr) as [Hok _].
   assert (Hwf : Forall type_wf mk) by (eapply Forall_impl; [|exact Hok]; intros r [Hx _]; exact Hx).
   destruct (get_recipients_exact _ _ _ _ _ _ Hwf Eg) as [Hnd [Hin Hnf]].
-  split; [assumption|]. intros x. rewrite Hin. split.
-  - intros [_ [r [Hr1 [Ho Hf]]]]. exists r. split; [assumption|]. split; [assumption|].
+  split; [apply NoDup_filter; assumption|]. intros x. rewrite filter_In, fd_ok_iff, Hin. split.
+  - intros [[_ [r [Hr1 [Ho Hf]]]] Hc]. split; [assumption|]. exists r. split; [assumption|]. split; [assumption|].
     rewrite Forall_forall in Hok. apply (matches_spec ns r (Some c) None m true); [apply Hok; assumption | exact Hf].
-  - intros [r [Hr1 [Ho Hs]]]. split; [discriminate|]. exists r. split; [assumption|]. split; [assumption|].
+  - intros [Hc [r [Hr1 [Ho Hs]]]]. split; [|assumption]. split; [discriminate|]. exists r. split; [assumption|]. split; [assumption|].
     unfold full. destruct (rule_matches ns r (Some c) None m false) as [b|] eqn:Em.
     + rewrite Forall_forall in Hok. rewrite (matches_spec ns r (Some c) None m b) in Hs; [congruence | apply Hok; assumption | exact Em].
     + exfalso. exact (Hnf r Hr1 Em).
 Qed.
 
 (* a unicast message: the addressed connection first, then the eavesdroppers, nobody twice *)
-Theorem unicast_delivery limit mk ns c m d a l :
+Theorem unicast_delivery limit mk ns caps c m nfds d a l :
   reachable limit mk ->
   m_dest m = Some d -> bytes_eqb d S_org_freedesktop_DBus = false -> owner_of ns d = Some a ->
-  dispatch ns mk c m = Some (RDelivered l) ->
-  valid_type (m_type m) = true /\ NoDup l /\ In a l /\
-  forall x, x <> a -> (In x l <-> exists r, In r mk /\ r_owner r = x /\ spec_matches ns (abs_rule r) (Some c) (Some a) m = true).
+  dispatch ns mk caps c m nfds = Some (RDelivered l) ->
+  valid_type (m_type m) = true /\ (nfds = 0 \/ In a caps) /\ NoDup l /\ In a l /\
+  forall x, x <> a -> (In x l <-> (nfds = 0 \/ In x caps) /\
+                                  exists r, In r mk /\ r_owner r = x /\ spec_matches ns (abs_rule r) (Some c) (Some a) m = true).
 Proof.
   intros Hr Hd Hnd Ho H. unfold dispatch in H. rewrite Hd, Hnd, Ho in H.
   destruct (valid_type (m_type m)) eqn:Evt; cbn [negb] in H; [|discriminate]. split; [reflexivity|].
+  destruct (fd_ok caps nfds a) eqn:Efd; cbn [negb] in H; [|discriminate]. split; [now apply fd_ok_iff|].
   destruct (get_recipients ns mk (Some c) (Some a) m) as [l0|] eqn:Eg; [|discriminate].
-  inversion H; subst l; clear H.
+  inversion H; subst l; clear H. rewrite fan_out_filter.
   destruct (reachable_inv _ _ Hr) as [Hok _].
   assert (Hwf : Forall type_wf mk) by (eapply Forall_impl; [|exact Hok]; intros r [Hx _]; exact Hx).
   destruct (get_recipients_exact _ _ _ _ _ _ Hwf Eg) as [Hnodup [Hin Hnf]].
   split.
-  - constructor; [|assumption]. intros Ha. apply Hin in Ha. destruct Ha as [Hne _]. now apply Hne.
-  - split; [now left|]. intros x Hx. simpl. split.
-    + intros [E|Hl]; [congruence|]. apply Hin in Hl. destruct Hl as [_ [r [Hr1 [Hown Hf]]]].
+  - constructor; [|apply NoDup_filter; assumption]. intros Ha. apply filter_In in Ha. destruct Ha as [Ha _].
+    apply Hin in Ha. destruct Ha as [Hne _]. now apply Hne.
+  - split; [now left|]. intros x Hx. simpl. rewrite filter_In, fd_ok_iff. split.
+    + intros [E|[Hl Hc]]; [congruence|]. split; [assumption|]. apply Hin in Hl. destruct Hl as [_ [r [Hr1 [Hown Hf]]]].
       exists r. split; [assumption|]. split; [assumption|].
       rewrite Forall_forall in Hok. apply (matches_spec ns r (Some c) (Some a) m true); [apply Hok; assumption | exact Hf].
-    + intros [r [Hr1 [Hown Hs]]]. right. apply Hin. split; [congruence|]. exists r. split; [assumption|]. split; [assumption|].
+    + intros [Hc [r [Hr1 [Hown Hs]]]]. right. split; [|assumption]. apply Hin. split; [congruence|]. exists r. split; [assumption|]. split; [assumption|].
       unfold full. destruct (rule_matches ns r (Some c) (Some a) m false) as [b|] eqn:Em.
       * rewrite Forall_forall in Hok. rewrite (matches_spec ns r (Some c) (Some a) m b) in Hs; [congruence | apply Hok; assumption | exact Em].
       * exfalso. exact (Hnf r Hr1 Em).
@@ -361,12 +372,13 @@ Proof.
   discriminate.
 Qed.
 
-Theorem dispatch_total ns mk c m : dispatch ns mk c m <> None.
+Theorem dispatch_total ns mk caps c m nfds : dispatch ns mk caps c m nfds <> None.
 Proof.
   unfold dispatch. destruct (m_dest m) as [d|].
   - destruct (bytes_eqb d S_org_freedesktop_DBus); [discriminate|].
     destruct (owner_of ns d) as [a|]; [|discriminate].
     destruct (negb (valid_type (m_type m))); [discriminate|].
+    destruct (negb (fd_ok caps nfds a)); [discriminate|].
     pose proof (get_recipients_total ns mk (Some c) (Some a) m). destruct (get_recipients ns mk (Some c) (Some a) m); [discriminate|congruence].
   - destruct (m_type m =? DBUS_MESSAGE_TYPE_SIGNAL); [|discriminate].
     pose proof (get_recipients_total ns mk (Some c) None m). destruct (get_recipients ns mk (Some c) None m); [discriminate|congruence].
